@@ -232,8 +232,8 @@ PARAM_FALLBACK = {
 DEFAULT_KINDS = 'sc|v3|v6|T3|R3|q|SAME'
 
 # binary operators: right-operand kinds per class family
-POSE3 = 'SAME|SAME|obj:SO3|obj:SE3|sc|int|v3|p3|uv3|obj:Plucker|obj:Twist3|m33|T3|v4|hp3'
-POSE2 = 'SAME|SAME|obj:SO2|obj:SE2|sc|int|v2|p2|m33|T2|v3'
+POSE3 = 'SAME|SAME|obj:SO3|obj:SE3|sc|int|v3|p3|uv3|obj:Plucker|obj:Twist3|obj:UnitQuaternion|m33|T3|v4|hp3|ANYOBJ'
+POSE2 = 'SAME|SAME|obj:SO2|obj:SE2|sc|int|v2|p2|m33|T2|v3|obj:Twist2|ANYOBJ'
 OPERATORS = {
     # class: {opname: right kinds}
     'SO2': {'mul': POSE2, 'truediv': 'SAME|SAME|sc|obj:SE2', 'add': 'SAME|sc|R2', 'sub': 'SAME|sc|R2',
@@ -247,11 +247,11 @@ OPERATORS = {
     'Quaternion': {'mul': 'SAME|SAME|sc|int|obj:UnitQuaternion', 'truediv': 'SAME|sc|obj:UnitQuaternion',
                    'add': 'SAME|sc|obj:UnitQuaternion', 'sub': 'SAME|sc|obj:UnitQuaternion',
                    'pow': 'int', 'eq': 'SAME', 'ne': 'SAME', 'neg': ''},
-    'UnitQuaternion': {'mul': 'SAME|SAME|sc|v3|p3|uv3|obj:Quaternion', 'truediv': 'SAME|SAME|sc',
+    'UnitQuaternion': {'mul': 'SAME|SAME|sc|v3|p3|uv3|obj:Quaternion|obj:SO3|obj:SE3|ANYOBJ', 'truediv': 'SAME|SAME|sc',
                        'add': 'SAME|sc|obj:Quaternion', 'sub': 'SAME|sc|obj:Quaternion',
                        'pow': 'int', 'eq': 'SAME', 'ne': 'SAME', 'neg': ''},
-    'Twist2': {'mul': 'SAME|SAME|sc|int|obj:SE2', 'add': 'SAME|sc', 'eq': 'SAME', 'ne': 'SAME'},
-    'Twist3': {'mul': 'SAME|SAME|sc|int|obj:SE3', 'add': 'SAME|sc', 'eq': 'SAME', 'ne': 'SAME'},
+    'Twist2': {'mul': 'SAME|SAME|sc|int|obj:SE2|ANYOBJ', 'add': 'SAME|sc', 'eq': 'SAME', 'ne': 'SAME'},
+    'Twist3': {'mul': 'SAME|SAME|sc|int|obj:SE3|obj:SO3|ANYOBJ', 'add': 'SAME|sc', 'eq': 'SAME', 'ne': 'SAME'},
     'Plucker': {'mul': 'SAME|obj:SE3|sc', 'xor': 'SAME|SAME1', 'or': 'SAME|SAME1', 'eq': 'SAME',
                 'ne': 'SAME', 'add': 'SAME'},
     'SpatialVelocity': {'add': 'SAME|obj:SpatialAcceleration', 'sub': 'SAME', 'mul': 'sc|int',
@@ -269,7 +269,7 @@ OPERATORS = {
 }
 AUGMENTED = {'mul': 'imul', 'truediv': 'itruediv', 'add': 'iadd', 'sub': 'isub', 'pow': 'ipow'}
 # left-operand kinds for reflected dispatch (scalar * X, array * X, SE3 * Plucker, ...)
-REFLECTED_LEFT = 'sc|int|v3|T3|obj:SE3|obj:SO3|m33|R3'
+REFLECTED_LEFT = 'sc|int|v3|T3|obj:SE3|obj:SO3|m33|R3|ANYOBJ|obj:SE2|obj:UnitQuaternion'
 
 
 def expand(kinds):
